@@ -15,7 +15,7 @@ from vpc.core import cN, cstr, clist, copt, cbool
 from props.C17 import peer_id, good_addr, rand_component, cproto, refresh_lock, pipeline_retry, ref_craft
 
 IMPORTS = "Require Import V.model.Parsers V.model.BootCache."
-THEOREMS = ["write_is_atomic_replace", "cache_write_then_read", "cache_write_empty_wipes", "write_skip_empty_refuted", "sync_counters_bounded", "sync_wrapping_refuted", "log_head_slice_refuted", "ctor_paths_agree", "flush_then_load", "late_override_refuted", "constants_c18", "bounded_after_cleanup", "bounded_without_sync", "sync_breaks_bound_refuted",
+THEOREMS = ["written_files_load", "write_is_atomic_replace", "cache_write_then_read", "cache_write_empty_wipes", "write_skip_empty_refuted", "sync_counters_bounded", "sync_wrapping_refuted", "log_head_slice_refuted", "ctor_paths_agree", "flush_then_load", "late_override_refuted", "constants_c18", "bounded_after_cleanup", "bounded_without_sync", "sync_breaks_bound_refuted",
             "load_bounded", "flush_with_cleanup_bounded", "craft_wellformed", "craft_fixpoint", "wellformed",
             "foreign_file_unvalidated_refuted", "keys_unique", "cleanup_postcondition", "cleanup_evicts_oldest",
             "cleanup_fixpoint", "sync_loses_nothing", "flush_merges", "save_load", "save_load_clean",
@@ -33,6 +33,8 @@ RULE = ("data histories: 12-40 steps over 3 CacheData slots, 4-8 peers with 2-5 
         "constructors: BootstrapCacheStore::new and new_from_peers_args with every combination of config given / default, "
         "bootstrap_cache_dir, first, local (and both values of the two flags it ignores), a distinct cache file present at each "
         "candidate location, then add / flush / reload through an identically constructed store; "
+        "stores at the shipped limits: 1499 peers x 3 (quick) / 1, 2, 3, 6 (thorough) long addresses, flushed (1.5-2.8 MB files), "
+        "loaded, one more peer merged, loaded; "
         "first-flush races: the cache file ABSENT at the start, 2 threads + 1-2 processes each flushing 300-700 peers once while a "
         "reader spins on load and a raw parse, 6-60 fresh paths; "
         "concurrent: 4-8 threads + 2-3 processes x 15-40 flushes with a reader; a case is distinct/non-trivial by "
@@ -328,6 +330,9 @@ def gen(ctx):
                  {"threads": 4, "procs": 3, "rounds": 60, "per_round": 8, "max_peers": 200}]
     for c in conc:
         cases.append(dict(c, op="concurrent", kind="concurrent"))
+    # stores AT the shipped limits (1500 peers; 1, 3, 6 long addresses each): save, load, merge one more peer, load
+    for a in ([3] if quick else [1, 3, 6, 2]):
+        cases.append({"op": "big_store", "kind": "big-store", "peers": 1499, "addrs": a})
     # the FIRST flush: the file is absent, writers flush large stores while a reader spins on load
     cases.append({"op": "first_flush_race", "kind": "first-flush", "trials": 12 if quick else 60, "peers": 300, "procs": 1})
     cases.append({"op": "first_flush_race", "kind": "first-flush", "trials": 6 if quick else 30, "peers": 700, "procs": 2})
@@ -370,6 +375,18 @@ def oracle(c, o):
     if "panic" in o:
         return [("panic", "%s case panicked: %s" % (c.get("kind"), o["panic"]))]
     v = []
+    if c["op"] == "big_store":
+        want = (c["peers"], c["peers"] * c["addrs"])
+        if tuple(o["in_memory"]) != want:
+            v.append(("big-store-setup", "the store holds %s peers/addresses after %s additions" % (o["in_memory"], want)))
+        elif not o["flush1"] or o["load1"] is None or tuple(o["load1"]) != want:
+            v.append(("save-load", "a store within the limits (%d peers x %d addresses) was flushed to a %d-byte file; loading it %s" % (
+                c["peers"], c["addrs"], o["size1"],
+                "fails: %s" % o["err1"] if o["load1"] is None else "returns %s peers/addresses" % (o["load1"],))))
+        if not o["flush2"] or o["load2"] is None or o["load2"][0] != c["peers"] + 1 or o["load2"][1] != want[1] + 1:
+            v.append(("sync-loses", "merging one more peer into the %d-byte on-disk cache of %d peers left %s peers/addresses on disk "
+                      "(%d bytes)" % (o["size1"], c["peers"], o["load2"], o["size2"])))
+        return v
     if c["op"] == "first_flush_race":
         if o["parse_failures"] or o["raw_bad"]:
             v.append(("torn-file", "first flush onto an absent file: %d of %d loads during the race failed to parse (%s), %d raw reads were "
@@ -713,6 +730,8 @@ def nontrivial(c, o):
         return ("concurrent", c["threads"], c["procs"], c["max_peers"])
     if c["op"] == "first_flush_race":
         return ("first-flush", c["peers"], c["procs"])
+    if c["op"] == "big_store":
+        return ("big-store", c["peers"], c["addrs"])
     if c["op"] == "ctor":
         return ("ctor", c["ctor"], c["config"], c["custom_dir"], c["first"], c["local"])
     ks = sorted(s["k"] + str(s.get("fkind", "")) + str(s.get("cleanup", "")) for s in c["steps"])
@@ -737,6 +756,8 @@ def run(ctx):
     ctx.prove("props/C18.v", THEOREMS, extra_trusted=[
         "model coq/model/BootCache.v (+ craft in model/Parsers.v), hand-written, tied to cache_store.rs / lib.rs / config.rs "
         "by this run's lock-step correspondence on operation histories",
+        "translator fact boot_load_unbounded_read (load_cache_data reads the whole file, no take / size constant), pinned by "
+        "written_files_load",
         "translator fact boot_write_atomic_only (write() reaches the disk only through AtomicWriteFile open..commit, no direct "
         "create/write, no early return), pinned by write_is_atomic_replace",
         "translator tools/extract_consts.py: MAX_PEERS, MAX_ADDRS_PER_PEER, ADDR_EXPIRY_DURATION re-read from config.rs "
